@@ -73,6 +73,10 @@ def check(ctx, F):
     check_no_invalid(ctx, F)
     check_defaults(ctx, F)
     routing.check_descend(ctx, F, "C01.descend")
+    check_ortho_descend(ctx, F)
+    # the prong a resolver stored reaches the sub-state it names: CS_ dispatch by prong < R_PRONG (rule instances shared with C02 / C03)
+    from . import C03
+    C03.check_cs_dispatch(C03._Alias(ctx, {"C03.cs-dispatch": "C01.descend"}), F)
 
 
 def check_writers(ctx, F, E):
@@ -261,6 +265,28 @@ def check_ortho_all(ctx, F):
         ctx.instance("C01.ortho-all", site, {"function": site, "loc": F.floc(fid)})
         if bad:
             ctx.violation("C01.ortho-all", site, "%s (%s)" % (site, F.floc(fid)), bad, {})
+
+
+O_DESCEND = ("deepRequestChange", "deepRequestRestart", "deepRequestResume", "deepRequestSelect", "deepRequestUtilize", "deepRequestRandomize",
+             "deepReportChange", "deepReportUtilize", "deepReportRandomize")
+
+
+def check_ortho_descend(ctx, F):
+    """an orthogonal region hands every request / report down to all of its sub-regions on every path: the reports are what stores the
+    requested prongs of nested regions (a skipped report leaves a nested region to be entered without a requested prong)"""
+    for fid, b in insts(F, "O_", set(O_DESCEND)):
+        site = "O_::" + b["name"]
+        want = "wide" + b["name"][4:]
+        bad = None
+        for p in paths_of(ctx, F, fid):
+            n = sum(1 for ev in p if ev[0] == "call" and ev[2] is not None and F.fn(ev[2]).get("cls") == "OS_" and F.fn(ev[2])["name"] == want)
+            if n != 1:
+                bad = n
+        ctx.instance("C01.descend", site, {"function": site, "loc": F.floc(fid), "descends_through": want})
+        if bad is not None:
+            ctx.violation("C01.descend", site, "%s (%s)" % (site, F.floc(fid)),
+                          "SubStates::%s is called %d times on some path, expected once on every path: nested regions of the orthogonal region are left "
+                          "without a requested prong" % (want, bad), {})
 
 
 def _user_select(F, e, cf):
